@@ -219,3 +219,34 @@ theorem negotiate_pending (s : St) (hs : s.ctrl = []) (p : Bytes) (hp : Pending 
     simp [negotiate, step, IAC_eq, hv]
 
 end Scrapli.Telnet
+
+namespace Scrapli.Telnet
+open Scrapli
+
+/-! ### bytes already in `initialBuf` are only ever appended to -/
+
+theorem step_data_prefix (p : Bytes) (s : St) (c : UInt8) :
+    step { s with data := p ++ s.data } c = { step s c with data := p ++ (step s c).data } := by
+  obtain ⟨ctrl, data, replies⟩ := s
+  match ctrl with
+  | [] => by_cases h : c = IAC <;> simp [step, h]
+  | [a] =>
+    simp only [step]
+    split
+    · simp
+    · split <;> simp
+  | [a, cmd] =>
+    simp only [step, finish]
+    cases replyFor cmd c <;> simp
+  | _ :: _ :: _ :: _ => simp [step]
+
+theorem negotiate_data_prefix (p : Bytes) (s : St) (bs : Bytes) :
+    negotiate { s with data := p ++ s.data } bs =
+      { negotiate s bs with data := p ++ (negotiate s bs).data } := by
+  induction bs generalizing s with
+  | nil => rfl
+  | cons c bs ih =>
+    rw [negotiate_cons, negotiate_cons, step_data_prefix]
+    exact ih (step s c)
+
+end Scrapli.Telnet
